@@ -80,10 +80,19 @@ def _facts(c, out):
             out.append(T.add(T.const(1), l))
 
 
-def implies_nonneg(goal, pc, extra_facts=(), _depth=0):
+def implies_nonneg(goal, pc, extra_facts=(), _depth=0, _split=0):
     """does the path condition imply goal >= 0 ?   goal >= 0 holds if goal + sum(k_i * f_i) is a non-negative
     form for some facts f_i <= 0 (k_i in {0,1,2}) -- then goal >= -sum(..) >= 0."""
     goal = T.as_lin(goal)
+    # + min{a, b} (or - max{a, b}) in the goal: the goal holds iff it holds with each element in place of the min / max
+    if _split <= 2:
+        for r, c in goal[2]:
+            if isinstance(r, tuple) and r and ((r[0] == 'min' and c > 0) or (r[0] == 'max' and c < 0)):
+                rest = T.sub(goal, T.scale(T.root(r), c))
+                rs = [implies_nonneg(T.add(rest, T.scale(T.as_lin(a), c)), pc, extra_facts, _depth, _split + 1) for a in r[1]]
+                if all(x is not None for x in rs):
+                    return 'each element of ' + T.show(r) + ': ' + '; '.join(rs)
+                break
     goals = lower_variants(goal)      # proving any g <= goal non-negative suffices
     facts = facts_from_pc(pc) + list(extra_facts)
     if _depth == 0:
@@ -202,7 +211,13 @@ def collect(crate, body):
             base = T.unroot(e['base'])
             if isinstance(base, tuple) and base and base[0] == 'elemhavoc':
                 base = base[1]
-            s['goal'] = T.sub(T.sub(T.root(('len', base)), e['idx']), T.const(1))
+            ix = T.unroot(e['idx'])
+            if isinstance(ix, tuple) and ix and ix[0] == 'range':
+                # base[lo..hi]: lo <= hi and hi <= len
+                n = T.root(('len', base))
+                s['goals'] = [T.sub(n, ix[1])] if ix[2] == ('inf',) else [T.sub(ix[2], ix[1]), T.sub(n, ix[2])]
+            else:
+                s['goal'] = T.sub(T.sub(T.root(('len', base)), e['idx']), T.const(1))
             s['text'] = f"{T.show(base)}[{T.show(e['idx'])}]"
         elif k == 'unwrap':
             s['arg'] = T.unroot(e['arg'])
@@ -248,6 +263,10 @@ def canon_text(t):
     t = renumber(r'havoc\((\d+, \d+)\)', 'loopvar', t)
     t = renumber(r'elemhavoc\(([^()]*(?:\([^()]*\))?[^()]*), \d+, \d+\)', 'elemwise-updated', t) if 'elemhavoc' in t else t
     t = renumber(r'item\((\d+)\)', 'item', t)
+    if '$' not in t:
+        # `for i in it {..}` and `it.map(|i| ..)` record the same obligation: one name for the iteration variable
+        t = re.sub(r'\bitem#(\d+)', lambda m: '$' + str(int(m.group(1)) - 1), t)
+        t = re.sub(r'\bitem\b', '$0', t)
     t = renumber(r'index_of\((\d+)\)', 'index', t)
     t = re.sub(r'cp\(\d+, (\d+)\)', r'closure-param\1', t)
     t = re.sub(r'clo\(\d+\)', 'closure', t)
@@ -261,11 +280,14 @@ def discharge(s):
     """-> reason string if the site is discharged by its path condition, else None"""
     k = s['kind']
     if k in ('sub', 'index', 'div'):
+        if 'goals' in s:
+            rs = [implies_nonneg(g, s['pc']) for g in s['goals']]
+            return None if any(r is None for r in rs) else '; '.join(rs)
         return implies_nonneg(s['goal'], s['pc'])
     if k == 'unwrap':
         arg = s['arg']
         for c in s['pc']:
-            if c == T.tnot(('is_err', arg)) or c == ('is_ok', arg) or c == ('is_some', arg) or c == T.tnot(('is_none', arg)):
+            if c == ('matches', arg, 'Ok') or c == ('matches', arg, 'Some'):
                 return 'dominated by an is_err/is_some test'
         # max()/min() over a range that cannot be empty
         if isinstance(arg, tuple) and arg and arg[0] in ('maxof', 'minof'):
